@@ -332,6 +332,12 @@ void h_ovni_thread_free(void)
 /* ======================================================================= attributes */
 #define ATTR_GATE __CPROVER_ensures(GATE_THREAD && !OLD(rthread.finished))
 /* a setter returns only if the store succeeded (a failed parson call is fatal, never silent) */
+/* a typed getter returns only a value of its own type (any other type is fatal, never reinterpreted) */
+#ifdef VERIF_TRACK_JSON_TYPE
+#define ATTR_TYPED(t) __CPROVER_assigns(g_json_type) __CPROVER_ensures(g_json_type == (t))
+#else
+#define ATTR_TYPED(t)
+#endif
 #define ATTR_SET_OK __CPROVER_requires(g_parson_failed == 0) __CPROVER_ensures(g_parson_failed == 0)
 int c11_ovni_attr_has(const char *key)
 __CPROVER_requires(STR_PRE(key, g_l1))
@@ -361,14 +367,17 @@ ATTR_GATE;
 double c11_ovni_attr_get_double(const char *key)
 __CPROVER_requires(STR_PRE(key, g_l1))
 __CPROVER_assigns(g_parson_failed, g_died)
+ATTR_TYPED(JSONNumber)
 ATTR_GATE;
 int c11_ovni_attr_get_boolean(const char *key)
 __CPROVER_requires(STR_PRE(key, g_l1))
 __CPROVER_assigns(g_parson_failed, g_died)
+ATTR_TYPED(JSONBoolean)
 ATTR_GATE;
 const char *c11_ovni_attr_get_str(const char *key)
 __CPROVER_requires(STR_PRE(key, g_l1))
 __CPROVER_assigns(g_parson_failed, g_died)
+ATTR_TYPED(JSONString)
 ATTR_GATE;
 char *c11_ovni_attr_get_json(const char *key)
 __CPROVER_requires(STR_PRE(key, g_l1))
